@@ -14,6 +14,7 @@ import Relsad.Lemmas.GraphL
 import Relsad.Lemmas.ControlInvL
 import Mathlib.Tactic.Linarith
 import Relsad.Lemmas.ControlCalmL
+import Relsad.Lemmas.ControlDevL
 
 namespace Relsad.C16
 open Relsad.Graph Relation
@@ -143,5 +144,37 @@ example :
     (spreadSec C s (1/1800)).timer = [1] ∧ (spreadSec C s 3).timer = [3] ∧ (spreadSec C (St.init C) 3).timer = [0] := by
   intro C s
   exact ⟨by decide +kernel, by decide +kernel, by decide +kernel⟩
+
+open Relsad.Control in
+/-- **Devices in trouble only add to the healthy behaviour**: when no reachable sensor needs time or is under repair, no
+intelligent switch is failed and no sensor has just come back from repair, an increment of the loops that take device
+failures into account (`stepD`, compared state by state with the implementation in scenarios where sensors and
+intelligent switches fail by themselves) is exactly the increment of `stepA`, about which the invariants are proved. -/
+theorem healthy_devices_same_as_automatic (C : Cfg) (s : St) (dt : ℚ) (cd : CommD) (swF : List Bool) (h : Healthy cd swF) :
+    stepD C s dt cd swF = stepA C s dt cd.cm := stepD_healthy C s dt cd swF h
+
+open Relsad.Control in
+/-- **A device in trouble never hides a fault**: whatever the sensors answer, a section with a failed line is reported
+as faulted (a sensor under repair can only add a false alarm). -/
+theorem failed_line_always_reported (C : Cfg) (s : St) (cd : CommD) (k : Nat)
+    (h : anyFailed s (C.secs.getD k default).lines = true) : reportedFail C s cd k = true := by
+  unfold anyFailed at h
+  unfold reportedFail
+  rw [List.any_eq_true] at h ⊢
+  obtain ⟨l, hl, hf⟩ := h
+  exact ⟨l, hl, by rw [hf]; rfl⟩
+
+open Relsad.Control in
+/-- A failed intelligent switch costs the manual sectioning time exactly once: the first poll sends it to repair. -/
+theorem failed_switch_polled_once (C : Cfg) (cd : CommD) (swF : List Bool) (d : Nat) (hr : gb cd.cm.iswitch d = true)
+    (hf : gb swF d = true) (hd : d < swF.length) :
+    swPoll C cd ((0 : ℚ), swF) (.discon d) = (C.T, swF.set d false) ∧
+    swPoll C cd (swPoll C cd ((0 : ℚ), swF) (.discon d)) (.discon d) = (C.T, swF.set d false) := by
+  have h1 : swPoll C cd ((0 : ℚ), swF) (.discon d) = (C.T, swF.set d false) := by
+    simp only [swPoll, hr, hf, Bool.and_self, if_true, zero_add]
+  refine ⟨h1, ?_⟩
+  rw [h1]
+  have : gb (swF.set d false) d = false := gb_set_self _ _ _ hd
+  simp only [swPoll, this, Bool.and_false, Bool.false_eq_true, if_false]
 
 end Relsad.C16
